@@ -253,55 +253,45 @@ class Prims:
 
     # -- normal forms ----------------------------------------------------------------
     def check_bit_prims(self):
+        """Bit primitives in semantic normal form (locals resolved, divmod/`//`/`%`/`>>`/`&` unified):
+             set: store[A div 8] |= bit << (A mod 8)      get: (store[A div 8] >> (A mod 8)) & 1
+        A form that is not recognised is UNDECIDED; a recognised form with a wrong component is a violation."""
+        from ..dataflow import deep_resolve
         cc = self.cc
         m = self.bit_set
         if m is None:
             self.note("undecided", "bitmap", cc.ci.methods.get("__init__"), "bit-set primitive", "no method of the recognised shape (bit, addr) found")
         else:
             ps = [p.arg for p in m.params][1:]
-            defs = Defs(m.node)
-
-            def resolve(e):
-                if isinstance(e, ast.Name) and len(defs.values(e.id)) == 1 and defs.values(e.id)[0][0] == "assign":
-                    return defs.values(e.id)[0][1]
-                return e
-            ok_place = False
             for kind, n in cc.store_writes(m):
                 if kind != "elem":
                     continue
                 t = n.targets[0] if isinstance(n, ast.Assign) else n.target
-                idx = resolve(t.slice)
+                idx = deep_resolve(m.node, t.slice)
                 base = byte_index_of(idx)
-                val = n.value
-                # value: <bit> << (<addr> & 7)
-                shift_ok = None
-                if isinstance(val, ast.BinOp) and isinstance(val.op, ast.LShift):
-                    sh = resolve(val.right)
-                    b = bit_index_of(sh)
-                    if b is not None:
-                        shift_ok = isinstance(b, ast.Name) and b.id in ps
-                    else:
-                        shift_ok = False
-                addr_name = base.id if isinstance(base, ast.Name) else None
-                is_or = isinstance(n, ast.AugAssign) and isinstance(n.op, ast.BitOr)
+                val = deep_resolve(m.node, n.value)
                 ap = ps[1] if len(ps) > 1 else "?"
-                self.sigs["bit_set"] = (norm(idx).replace(ap, "A"), norm(resolve(val.right)).replace(ap, "A") if isinstance(val, ast.BinOp) and isinstance(val.op, ast.LShift) else norm(val, 60))
+                shift_b = None
+                if isinstance(val, ast.BinOp) and isinstance(val.op, ast.LShift):
+                    shift_b = bit_index_of(val.right)
+                self.sigs["bit_set"] = ("DIV8(%s)" % norm(base).replace(ap, "A") if base is not None else norm(idx).replace(ap, "A"),
+                                        "MOD8(%s)" % norm(shift_b).replace(ap, "A") if shift_b is not None else norm(val, 60).replace(ap, "A"))
+                is_or = isinstance(n, ast.AugAssign) and isinstance(n.op, ast.BitOr)
                 if base is None:
-                    self.note("violation", "bitmap", m, norm(n, 70), "byte index is %s, canonical is address div 8" % norm(idx, 40))
-                elif shift_ok is False or shift_ok is None:
+                    if isinstance(idx, ast.Name) and idx.id in ps:
+                        self.note("violation", "bitmap", m, norm(n, 70), "byte index is %s, canonical is address div 8" % norm(idx, 40))
+                    else:
+                        self.note("undecided", "bitmap", m, norm(n, 70), "byte index %s not in a recognised form" % norm(idx, 40))
+                elif not (isinstance(val, ast.BinOp) and isinstance(val.op, ast.LShift)):
+                    self.note("undecided", "bitmap", m, norm(n, 70), "bit placement not in the `bit << (address mod 8)` form")
+                elif shift_b is None:
                     self.note("violation", "bitmap", m, norm(n, 70), "bit is placed by %s, canonical is `<< (address mod 8)` (LSB-first within the byte)" % norm(val, 50))
                 elif not is_or:
                     self.note("violation", "bitmap", m, norm(n, 70), "byte is overwritten, not OR-merged: earlier bits of the same byte are lost")
+                elif norm(shift_b) == norm(base):
+                    self.note("ok", "bitmap", m, norm(n, 70), "byte = addr div 8, bit = addr mod 8, placed by <<, OR-merged")
                 else:
-                    # same address variable for byte and bit index
-                    b = bit_index_of(resolve(val.right))
-                    same = isinstance(b, ast.Name) and b.id == addr_name
-                    if same:
-                        ok_place = True
-                        self.note("ok", "bitmap", m, norm(n, 70), "byte = addr div 8, bit = addr mod 8, placed by <<, OR-merged")
-                    else:
-                        self.note("violation", "bitmap", m, norm(n, 70), "byte index and bit index derive from different addresses")
-            # growth: append(0) guarded by len(store) <= byte
+                    self.note("violation", "bitmap", m, norm(n, 70), "byte index and bit index derive from different addresses")
             grows = [n for k, n in cc.store_writes(m) if k == "append"]
             for g in grows:
                 okz = isinstance(g, ast.Call) and g.args and isinstance(g.args[0], ast.Constant) and g.args[0].value == 0
@@ -314,35 +304,37 @@ class Prims:
             self.note("undecided", "bitmap", cc.ci.methods.get("__init__"), "bit-get primitive", "no method of the recognised shape (addr) with a raise found")
         else:
             ps = [p.arg for p in g.params][1:]
-            defs = Defs(g.node)
-
-            def resolve(e):
-                if isinstance(e, ast.Name) and len(defs.values(e.id)) == 1 and defs.values(e.id)[0][0] == "assign":
-                    return defs.values(e.id)[0][1]
-                return e
-            for r in cc.store_reads(g):
-                idx = resolve(r.slice)
-                base = byte_index_of(idx)
-                pm = parent_map(g.node)
-                par = pm.get(id(r))
-                okr = False
-                detail = ""
-                self.sigs["bit_get"] = (norm(idx).replace(ps[0], "A"), norm(resolve(par.right)).replace(ps[0], "A") if isinstance(par, ast.BinOp) and isinstance(par.op, ast.RShift) and par.left is r else norm(par, 60) if par is not None else "?")
-                if base is None or not (isinstance(base, ast.Name) and base.id in ps):
-                    detail = "byte index is %s, canonical is address div 8" % norm(idx, 40)
-                elif isinstance(par, ast.BinOp) and isinstance(par.op, ast.RShift) and par.left is r:
-                    b = bit_index_of(resolve(par.right))
-                    if isinstance(b, ast.Name) and b.id == base.id:
-                        top = pm.get(id(par))
-                        if isinstance(top, ast.BinOp) and isinstance(top.op, ast.BitAnd) and isinstance(top.right, ast.Constant) and top.right.value == 1:
-                            okr = True
-                        else:
-                            detail = "extracted value is not masked with & 1"
-                    else:
-                        detail = "bit is selected by %s, canonical is `>> (address mod 8)`" % norm(par.right, 40)
+            rets = [n.value for n in walk_local(g.node) if isinstance(n, ast.Return) and n.value is not None]
+            for rv in rets:
+                e = deep_resolve(g.node, rv)
+                while isinstance(e, ast.Call) and dotted(e.func) in ("int", "bool") and len(e.args) == 1:
+                    e = e.args[0]
+                site = norm(rv, 70)
+                # (store[idx] >> sh) & 1
+                if not (isinstance(e, ast.BinOp) and isinstance(e.op, ast.BitAnd)):
+                    self.note("undecided", "bitmap", g, site, "returned bit not in the `(byte >> (address mod 8)) & 1` form")
+                    continue
+                inner, mask = (e.left, e.right) if isinstance(e.right, ast.Constant) else (e.right, e.left)
+                if not (isinstance(mask, ast.Constant) and mask.value == 1):
+                    self.note("violation" if isinstance(mask, ast.Constant) else "undecided", "bitmap", g, site, "extracted value is not masked with & 1")
+                    continue
+                if not (isinstance(inner, ast.BinOp) and isinstance(inner.op, ast.RShift) and isinstance(inner.left, ast.Subscript) and norm(inner.left.value) == cc.S):
+                    self.note("undecided", "bitmap", g, site, "bit is not selected by `store[...] >> (address mod 8)`")
+                    continue
+                idx, sh = inner.left.slice, inner.right
+                base, b = byte_index_of(idx), bit_index_of(sh)
+                self.sigs["bit_get"] = ("DIV8(%s)" % norm(base).replace(ps[0], "A") if base is not None else norm(idx).replace(ps[0], "A"),
+                                        "MOD8(%s)" % norm(b).replace(ps[0], "A") if b is not None else norm(sh, 60).replace(ps[0], "A"))
+                if base is None:
+                    self.note("violation" if isinstance(idx, ast.Name) and idx.id in ps else "undecided", "bitmap", g, site, "byte index is %s, canonical is address div 8" % norm(idx, 40))
+                elif b is None:
+                    self.note("violation", "bitmap", g, site, "bit is selected by %s, canonical is `>> (address mod 8)`" % norm(sh, 40))
+                elif norm(b) != norm(base):
+                    self.note("violation", "bitmap", g, site, "byte index and bit index derive from different addresses")
                 else:
-                    detail = "bit is not selected by `>> (address mod 8) & 1`"
-                self.note("ok" if okr else "violation", "bitmap", g, norm(par if par is not None else r, 70), "bit = (byte >> addr mod 8) & 1" if okr else detail)
+                    self.note("ok", "bitmap", g, site, "bit = (byte >> addr mod 8) & 1")
+            if not rets:
+                self.note("undecided", "bitmap", g, "bit-get primitive", "no returned value")
 
     def check_word_prims(self):
         cc = self.cc
@@ -474,7 +466,9 @@ class Prims:
                 continue
             cw = cc.cursor_writes(m)
             is_word = name in self.word_prims
-            sub_used = any(bit_index_of(x) is not None and cc.C in norm(x) for x in ast.walk(m.node))
+            from ..dataflow import deep_resolve
+            sub_used = any(bit_index_of(x) is not None and cc.C in norm(deep_resolve(m.node, x), 400) for x in ast.walk(m.node) if isinstance(x, ast.BinOp))
+            sub_used = sub_used or any(isinstance(x, ast.Call) and dotted(x.func) == "divmod" and len(x.args) == 2 and isinstance(x.args[1], ast.Constant) and x.args[1].value == 8 and cc.C in norm(deep_resolve(m.node, x.args[0]), 400) for x in ast.walk(m.node))
             resets0 = any(isinstance(n, ast.Assign) and isinstance(n.value, ast.Constant) and n.value.value == 0 for n in cw)
             for kind, n in writes:
                 if kind == "whole" and isinstance(n, ast.Assign) and resets0:
@@ -766,9 +760,20 @@ def canon_effects(effs: List, side: str) -> str:
                     ct = str(c)
                 acc.append("If(%s%s){%s}" % ("not " if neg else "", ct, " ".join(body)))
             elif k == "B":
+                # a byte-granular transfer of n bytes is n 8-bit words (the byte primitive itself is judged by the
+                # cursor rules R01.3 / R16.1)
                 n = e[1]
-                nt = str(n) if isinstance(n, int) else ("count" if isinstance(n, tuple) and n[0] == "var" and ("word", id(n[1])) in lens else str(n))
-                acc.append("B(%s)" % nt)
+                if isinstance(n, int):
+                    nt = str(n)
+                elif isinstance(n, tuple) and n and n[0] == "var":
+                    nt = "count" if ("word", id(n[1])) in lens else "<decoded value, not the preceding word>"
+                elif isinstance(n, tuple) and n and n[0] == "len":
+                    nt = "count" if ("len", n[1]) in lens else "len(%s) [no prefix written]" % (n[1],)
+                elif isinstance(n, tuple) and n and n[0] == "bytes-of":
+                    nt = "count" if ("len", n) in lens else str(n)
+                else:
+                    nt = str(n)
+                acc.append("Loop(%s){W(8)}" % nt)
             elif k == "rec":
                 acc.append("Rec(%s)" % e[1])
             elif k == "raise":
